@@ -205,9 +205,12 @@ pub fn iface_calls(wide: bool) -> Vec<TCall> {
                 v.push(TCall::Repeat { pixel: vec![w; n], count });
             }
             if n >= 2 {
-                let mut p = vec![ws[1]; n];
-                p[n - 1] = ws[2];
-                v.push(TCall::Repeat { pixel: p, count });
+                // every position of the odd word out: [b,a..], [a,b,a], [a,..,b]
+                for k in 0..n {
+                    let mut p = vec![ws[1]; n];
+                    p[k] = ws[2];
+                    v.push(TCall::Repeat { pixel: p, count });
+                }
             }
         }
     }
